@@ -61,8 +61,8 @@ Lemma gen_ark_encode_eq p : gen_ark_encode p = ark_encode p.
 Proof. unfold gen_ark_encode, ark_encode. apply (@tie_ark_encode FqF). Qed.
 Lemma gen_ark_elligator_raw_eq r : gen_ark_elligator_raw r = ark_elligator_raw r.
 Proof. unfold gen_ark_elligator_raw, ark_elligator_raw. apply (@tie_ark_elligator FqF). Qed.
-Lemma gen_min_add_eq p p' : gen_min_add p p' = min_add min_K p p'. Proof. reflexivity. Qed.
-Lemma gen_min_double_eq p : gen_min_double p = min_double p. Proof. reflexivity. Qed.
+Lemma gen_min_add_eq p p' : gen_min_add p p' = min_add min_K p p'. Proof. apply (@tie_min_add FqF). Qed.
+Lemma gen_min_double_eq p : gen_min_double p = min_double p. Proof. apply (@tie_min_double FqF). Qed.
 
 (* the two backends run the same field-level functions on the same constants *)
 Lemma min_decode_is s : min_decode s = decode ark_D fq_neg min_sr s.
